@@ -399,10 +399,67 @@ def object_case(rec, x, y, cls_name, z):
     return None
 
 
+def foreign_object_case(rec, a2, b2, x, y, cls_name, z):
+    """a point OBJECT that belongs to another curve over the same field,
+    offered as a key for this curve: what counts is whether (x, y) is a valid
+    public point of THIS curve"""
+    from ecdsa.keys import VerifyingKey, MalformedPointError
+    from ecdsa import ellipticcurve as ec
+    ci = CurveInfo.get(rec)
+    curve = ci.env.curve
+    p = ci.p
+    other = ec.CurveFp(p, a2, b2)
+    try:
+        if cls_name == "J":
+            pt = ec.PointJacobi(other, x * z * z % p, y * z ** 3 % p, z)
+        else:
+            pt = ec.Point(other, x, y)
+    except AssertionError:
+        return None
+    try:
+        vk = VerifyingKey.from_public_point(pt, curve, validate_point=True)
+        got = ("ok", bytes(vk.to_string()))
+    except MalformedPointError as e:
+        got = ("reject",) if type(e) is MalformedPointError else \
+            ("raises", type(e).__name__)
+    except Exception as e:
+        got = ("raises", "%s: %s" % (type(e).__name__, e))
+    data = x.to_bytes(ci.plen, "big") + y.to_bytes(ci.plen, "big")
+    if got[0] != "ok":
+        # refusing an object of another curve is always within the property
+        # (such an object is not "a point of the right group" whatever its
+        # coordinates are); only acceptance is judged
+        return None
+    bad = judge(ci, data, got)
+    if bad:
+        return ("foreign-object:" + bad[0], bad[1], bad[2])
+    return None
+
+
 def shard_objects(arg):
     rec, xs = arg
     ci = CurveInfo.get(rec)
     sh = Shard()
+    p = ci.p
+    others = [((rec["a"] + 1) % p, rec["b"]), (rec["a"], (rec["b"] + 1) % p),
+              (0, 7 % p)]
+    for (a2, b2) in others:
+        if (a2, b2) == (rec["a"] % p, rec["b"] % p):
+            continue
+        for x in xs:
+            for y in range(p):
+                if (y * y - (x ** 3 + a2 * x + b2)) % p:
+                    continue
+                for cls_name, z in (("J", 1), ("J", 5), ("A", 1)):
+                    sh.n += 1
+                    sh.nt += 1
+                    sh.hist["foreign-curve-object"] += 1
+                    bad = foreign_object_case(rec, a2, b2, x, y, cls_name, z)
+                    if bad:
+                        sh.hist["fail:" + bad[0]] += 1
+                        sh.violation("foreign-object", bad[0],
+                                     dict(rec=rec, a2=a2, b2=b2, x=x, y=y,
+                                          cls=cls_name, z=z), bad[1], bad[2])
     for x in xs:
         for y in range(ci.p):
             on = (x, y) in ci.oncurve
@@ -618,6 +675,9 @@ def replay(check, case):
         bad = container_case(case["rec"], case["kind"], case["data"])
     elif check == "cross":
         bad = cross_curve_case(case["rec_a"], case["rec_b"], case["data"])
+    elif check == "foreign-object":
+        bad = foreign_object_case(case["rec"], case["a2"], case["b2"],
+                                  case["x"], case["y"], case["cls"], case["z"])
     elif check == "object":
         bad = object_case(case["rec"], case["x"], case["y"], case["cls"],
                           case["z"])
